@@ -164,7 +164,26 @@ def load(relpath, shims=None, div=False, ifconv=False, only=None, extra=None, mo
                 tg = n.targets[0] if isinstance(n, ast.Assign) else n.target
                 if isinstance(tg, ast.Name) and tg.id in only:
                     keep.append(n)
-        body = keep
+        # ... and, transitively, every module-level function / class / simple assignment those definitions refer to by name (a helper
+        # added next to a kept function must come along), unless the caller supplies that name itself
+        supplied = set(extra or {})
+        defs = {}
+        for n in body:
+            if isinstance(n, (ast.FunctionDef, ast.ClassDef)):
+                defs[n.name] = n
+            elif isinstance(n, (ast.Assign, ast.AnnAssign)) and getattr(n, 'value', None) is not None:
+                tg = n.targets[0] if isinstance(n, ast.Assign) else n.target
+                if isinstance(tg, ast.Name):
+                    defs.setdefault(tg.id, n)
+        kept = {id(n) for n in keep}
+        work = list(keep)
+        while work:
+            cur = work.pop()
+            for sub in ast.walk(cur):
+                if isinstance(sub, ast.Name) and sub.id in defs and sub.id not in supplied and id(defs[sub.id]) not in kept:
+                    kept.add(id(defs[sub.id]))
+                    work.append(defs[sub.id])
+        body = [n for n in body if id(n) in kept]
     tree.body = body
     if div or ifconv or setorder:
         tree = _Rewriter(div, ifconv, setorder).visit(tree)
